@@ -113,6 +113,7 @@ def rules(ctx):
         Rule("R09.f", "integer literals are materialised at their written value (shared with C09)", 20, _reuse("c09", "r09f")),
         Rule("R07.d", "operator/type combinations the checker accepts have a code-generator arm (shared with C07)", 80, _reuse("c07", "r07d")),
         Rule("R07.h", "every cast the checker accepts is one the code generator can build (shared with C07)", 100, _reuse("c07", "r07h")),
+        Rule("R07.i", "== / != on aggregates: every component the comparison recurses into has a code-generator arm (shared with C07)", 60, _reuse("c07", "r07i")),
         Rule("R11.c", "switch dispatch wiring and tag uses (shared with C11)", 9, _reuse("c11", "r11c")),
         Rule("R11.d", "variants of one enum get pairwise distinct discriminants (shared with C11)", 1, _reuse("c11", "r11d")),
         Rule("R03.a", "every jump to a scope target passes the defer unwinder (shared with C03)", 2, _reuse("c03", "r03a")),
